@@ -61,8 +61,14 @@ VFixed == [realprint |-> "float",   \* "repr": Real32/Real64 print debug repr
            canonval |-> "asis",     \* "lowered": canonical lowers strings
            hostcase |-> "all",      \* "dnsonly": canonical keeps the case of
                                     \*   a host that is an IP literal '[..]'
-           expsign |-> "both"]      \* "minus": REAL_VALUE exponent 'E-?'
+           expsign |-> "both",      \* "minus": REAL_VALUE exponent 'E-?'
                                     \*   (the '+' repr() prints is rejected)
+           cache |-> "none"]        \* "refs": reference key values parsed
+                                    \*   through a cache keyed by their text
+                                    \*   (equal text -> ONE shared object);
+                                    \*   "all": from_wbem_uri itself cached
+                                    \*   (only observable in a history of
+                                    \*   calls, see WbemUriHeap/WbemUriHist)
 (* most permissive parser (for "reads as a URI" in the requirement)        *)
 VPerm == [VFixed EXCEPT !.dt = "prefix"]
 
@@ -77,6 +83,8 @@ VKbStar == [VFixed EXCEPT !.kbval = "star"]
 VCanonVal == [VFixed EXCEPT !.canonval = "lowered"]
 VHostLit == [VFixed EXCEPT !.hostcase = "dnsonly"]
 VExpSign == [VFixed EXCEPT !.expsign = "minus"]
+VCacheRefs == [VFixed EXCEPT !.cache = "refs"]
+VCacheAll == [VFixed EXCEPT !.cache = "all"]
 (* variant chosen by environment (the harness probes the tree)             *)
 Env(n) == n \in DOMAIN IOEnv /\ IOEnv[n] = "1"
 VEnv == [VFixed EXCEPT
@@ -86,7 +94,9 @@ VEnv == [VFixed EXCEPT
            !.histcolon = IF Env("C07_HISTNOCOLON") THEN "nsonly" ELSE @,
            !.dt = IF Env("C07_DTPREFIX") THEN "prefix" ELSE @,
            !.hostcase = IF Env("C07_HOSTLIT") THEN "dnsonly" ELSE @,
-           !.expsign = IF Env("C07_EXPMINUS") THEN "minus" ELSE @]
+           !.expsign = IF Env("C07_EXPMINUS") THEN "minus" ELSE @,
+           !.cache = IF Env("C07_CACHEALL") THEN "all"
+                     ELSE IF Env("C07_CACHEREFS") THEN "refs" ELSE @]
 
 (* ------------------------------ data ----------------------------------- *)
 (* value: t in string char16 boolean int real datetime reference;          *)
